@@ -17,6 +17,7 @@ import KafkaVerif.Lemmas.GroupConns
 import KafkaVerif.Lemmas.WriterCloseDetail
 import KafkaVerif.Lemmas.WriterCloseProgress
 import KafkaVerif.Lemmas.WriterCloseMeasure
+import KafkaVerif.Lemmas.GroupCloseProgress
 
 namespace KV.C09
 open KV.WriterClose
@@ -796,28 +797,30 @@ theorem writer_detail_progress_invariants (cfg : KV.Writer.Cfg) (s : KV.Writer.S
    KV.WriterCloseDetail.cs_reachable cfg s hr⟩
 
 /-- **writer_detail_close_measure_decreases** — on the detailed Writer model every *closing* event (a step of Close after
-its begin, of a partition writer's goroutine, of the broker, of a call already inside WriteMessages) strictly lowers
-`closeMu` = [Close holds the mutex] + Σ partition writers (sender steps left, queued / pending / open batches, queue still
-open, goroutine not exited) + Σ calls (steps to their return), in every reachable state. -/
+its begin, of a partition writer's goroutine, of the broker, of a call already past `enter()`) strictly lowers
+`closeMu` = [Close holds the mutex] + calls between `enter()` and their identification + Σ partition writers (sender
+steps left, queued / pending / open batches, queue still open, goroutine not exited) + Σ calls (steps to their return),
+in every reachable state — except that a call identifying itself (`begin_`) first brings its own work (`evCost`). -/
 theorem writer_detail_close_measure_decreases (cfg : KV.Writer.Cfg) (hmax : 1 ≤ cfg.maxAttempts) (s s' : KV.Writer.State)
     (hr : KV.Writer.Reachable cfg s) (e : KV.Writer.Event) (hcl : KV.WriterCloseDetail.closing s e = true)
     (hs : KV.Writer.step cfg s e = some s') :
-    KV.WriterCloseDetail.closeMu cfg s' < KV.WriterCloseDetail.closeMu cfg s :=
+    KV.WriterCloseDetail.closeMu cfg s' < KV.WriterCloseDetail.closeMu cfg s + KV.WriterCloseDetail.evCost e :=
   KV.WriterCloseDetail.closing_decreases cfg hmax s s' hr e hcl hs
 
 /-- **writer_detail_close_terminates** — Close terminates on the detailed Writer model in every schedule: from a
-reachable state with the writer closed and no call between `enter()` and its identification, every run of closing
-events has at most `closeMu` steps, and a run that cannot be extended ends in a state in which `closeReturn` is enabled.
-(Outside the closing set: new callers, further Close calls, timers — Close needs none —, and the events that need an
-open writer, which are disabled once `closed`.)  With `writer_detail_close_return_complete` this is the whole Writer
-clause of C09 on the model that C01/C07/C08 replay hook traces through one event at a time. -/
+reachable state with the writer closed, every run of closing events has at most `closeMu` + `runCost` steps (`runCost`:
+the work of the at most `entered` calls that passed `enter()` before Close and identify themselves during the run), and
+a run that cannot be extended ends in a state in which `closeReturn` is enabled.  (Outside the closing set: new callers,
+further Close calls, timers — Close needs none —, and the events that need an open writer, which are disabled once
+`closed`.)  With `writer_detail_close_return_complete` this is the whole Writer clause of C09 on the model that
+C01/C07/C08 replay hook traces through one event at a time. -/
 theorem writer_detail_close_terminates (cfg : KV.Writer.Cfg) (hmax : 1 ≤ cfg.maxAttempts) (s : KV.Writer.State)
-    (hr : KV.Writer.Reachable cfg s) (hc : s.closed = true) (he : s.entered = 0) (es : List KV.Writer.Event)
+    (hr : KV.Writer.Reachable cfg s) (hc : s.closed = true) (es : List KV.Writer.Event)
     (s' : KV.Writer.State) (hrun : KV.WriterCloseDetail.closingRun cfg s es = some s') :
-    es.length ≤ KV.WriterCloseDetail.closeMu cfg s ∧
+    es.length ≤ KV.WriterCloseDetail.closeMu cfg s + KV.WriterCloseDetail.runCost es ∧
     ((∀ e, KV.WriterCloseDetail.closing s' e = true → KV.Writer.step cfg s' e = none) →
       (KV.Writer.step cfg s' .closeReturn).isSome = true) :=
-  KV.WriterCloseDetail.close_terminates_detail cfg hmax s hr hc he es s' hrun
+  KV.WriterCloseDetail.close_terminates_detail cfg hmax s hr hc es s' hrun
 
 /-- not vacuous: a run of the detailed model in which Close begins while a batch is still queued, the batch is then
 sent, its Completion runs, the call returns, the sender exits and Close returns -/
@@ -839,5 +842,38 @@ example : ((KV.Writer.run detailCfg KV.Writer.State.init
      .closeBegin]).bind (fun s => KV.WriterCloseDetail.closingRun detailCfg s
     [.qclose 1, .closeMarked 1, .qget 1 (some 1), .attempt 1 1 0, .produce 1 ("t", 0) [(1, 0)] .acked,
      .attemptDone 1 1 0 0, .completion 1 1 0, .complete 1 1 0, .ret 1 .ok, .qget 1 none])).isSome = true := by decide
+
+end KV.C09
+
+/-! ## inside `gen.close()` (Lemmas/GroupCloseProgress.lean) -/
+namespace KV.C09
+
+/-- **group_close_wait_progress** — while the `run` goroutine waits inside `(*Generation).close` (`<-g.joined`), in
+every reachable state either `close()` can return or one of the generation's functions can take a step towards its
+exit: a pending exit section, the heartbeat loop, a partition watcher (their coordinator calls return; they see the
+cancelled generation context), or an application function still inside its body (`Generation.Start`'s contract; for
+the Reader: the commit loop and the unsubscribe function).  Rests on the accounting invariant `routines` = pending exit
+sections + live heartbeat + live accounted watchers + application functions inside their body. -/
+theorem group_close_wait_progress (c : Group.Cfg) (s : Group.St) (hr : Group.Reachable c s) (ret : Option Group.Err)
+    (r : Nat) (hp : s.pc = .waiting ret r) :
+    ∃ e, GroupClose.genEv e = true ∧ (Group.step c s e).isSome = true :=
+  GroupClose.waiting_progress c s hr ret r hp
+
+/-- **group_run_progress** — `group_run_progress_partial` without its exception: once the group is closed the `run`
+goroutine (or, inside `gen.close()`, a function of the generation it waits for) has an enabled step in every reachable
+state until `run` has exited. -/
+theorem group_run_progress (c : Group.Cfg) (s : Group.St) (hr : Group.Reachable c s) (hc : s.closedCG = true)
+    (hx : s.pc ≠ .exited) :
+    ∃ e, (e.runLoop = true ∨ (∃ g acc, e = .gStart g acc) ∨ GroupClose.genEv e = true) ∧
+      (Group.step c s e).isSome = true :=
+  GroupClose.run_progress_full c s hr hc hx
+
+/-- **reader_system_close_progress_full** — `reader_system_close_progress` without its exception: while Reader.Close
+waits after the mark some component can always move. -/
+theorem reader_system_close_progress_full (c : Group.Cfg) (s : ReaderCloseSystem.State)
+    (hi : ReaderCloseSystem.Inv c s) (hm : s.close = 2) :
+    ∃ e, (ReaderCloseSystem.internal e = true ∨ (∃ gi acc, e = .group (.gStart gi acc)) ∨
+          ∃ ge, e = .group ge ∧ GroupClose.genEv ge = true) ∧ (ReaderCloseSystem.step c s e).isSome = true :=
+  GroupClose.system_progress_full c s hi hm
 
 end KV.C09
